@@ -482,8 +482,9 @@ func (x *Exec) canSend(g *G, c *chanState) bool {
 	if c.closed {
 		return true // will panic
 	}
-	if len(c.buf) < c.cap {
-		return true
+	if c.cap > 0 {
+		// buffered: never a direct hand-off, see doSend
+		return len(c.buf) < c.cap
 	}
 	return len(x.waiters(g, c, false)) > 0
 }
@@ -502,6 +503,9 @@ func (x *Exec) canRecv(g *G, c *chanState) bool {
 	}
 	if len(c.buf) > 0 || c.closed {
 		return true
+	}
+	if c.cap > 0 {
+		return false
 	}
 	return len(x.waiters(g, c, true)) > 0
 }
@@ -665,7 +669,7 @@ func (x *Exec) planSend(g *G, c *chanState) plan {
 	if c.closed {
 		return plan{ok: true, what: what, clocks: []*vclock{&c.clock}}
 	}
-	if ws := x.waiters(g, c, false); len(ws) > 0 && len(c.buf) == 0 {
+	if ws := x.waiters(g, c, false); c.cap == 0 && len(ws) > 0 {
 		if len(ws) > 1 {
 			return plan{}
 		}
@@ -680,15 +684,9 @@ func (x *Exec) planRecv(g *G, c *chanState) plan {
 		return plan{ok: true, what: what, clocks: []*vclock{&c.clock}}
 	}
 	if len(c.buf) > 0 {
-		if ws := x.waiters(g, c, true); len(ws) > 0 {
-			if len(ws) > 1 {
-				return plan{}
-			}
-			return plan{ok: true, what: what, clocks: []*vclock{&c.clock}, partner: ws[0].g, pwhat: mix(10, c.id)}
-		}
 		return plan{ok: true, what: what, clocks: []*vclock{&c.clock}}
 	}
-	if ws := x.waiters(g, c, true); len(ws) > 0 {
+	if ws := x.waiters(g, c, true); c.cap == 0 && len(ws) > 0 {
 		if len(ws) > 1 {
 			return plan{}
 		}
@@ -886,7 +884,13 @@ func (x *Exec) doSend(g *G, op *pendingOp, c *chanState, val any, caseIdx int) {
 		x.event(g, what, []*vclock{&c.clock})
 		return
 	}
-	if ws := x.waiters(g, c, false); len(ws) > 0 && len(c.buf) == 0 {
+	// A goroutine whose pending operation is a receive on a buffered channel is
+	// not necessarily parked in it yet: the value goes through the buffer and the
+	// receiver (possibly a select with other ready cases by then) takes it when it
+	// is scheduled. This covers the runtime's direct hand-off to a parked receiver
+	// (schedule the receiver next and pick that case) and the receiver that arrives
+	// later. Only unbuffered channels need the rendezvous.
+	if ws := x.waiters(g, c, false); c.cap == 0 && len(ws) > 0 {
 		w := x.pick(ws, "partner-recv")
 		pop := w.g.op
 		pop.completed = true
@@ -908,27 +912,13 @@ func (x *Exec) doRecv(g *G, op *pendingOp, c *chanState, caseIdx int) {
 		return
 	}
 	if len(c.buf) > 0 {
+		// a sender waiting for room becomes enabled and sends when it is scheduled
 		op.rval, op.rok = c.buf[0], true
 		c.buf = c.buf[1:]
-		// a sender blocked on the full buffer can now complete
-		if ws := x.waiters(g, c, true); len(ws) > 0 {
-			w := x.pick(ws, "partner-send")
-			sop := w.g.op
-			v := sop.val
-			if w.idx >= 0 {
-				v = sop.cases[w.idx].val
-			}
-			c.buf = append(c.buf, v)
-			sop.completed = true
-			sop.selIdx = w.idx
-			x.event(g, what, []*vclock{&c.clock})
-			x.event(w.g, mix(10, c.id), []*vclock{&c.clock, &g.clock})
-			return
-		}
 		x.event(g, what, []*vclock{&c.clock})
 		return
 	}
-	if ws := x.waiters(g, c, true); len(ws) > 0 {
+	if ws := x.waiters(g, c, true); c.cap == 0 && len(ws) > 0 {
 		w := x.pick(ws, "partner-send")
 		sop := w.g.op
 		v := sop.val
